@@ -51,9 +51,62 @@ func genCase(t *rapid.T) Case {
 		sv.VectorVamana = &p
 		schema[gen.PVamana] = sv
 	}
+	// shape "train": a binary quantiser that learns its threshold after a few points; some points are
+	// persisted before the training, the next batch crosses the trigger, then early points are deleted
+	// (their pre-training records must not come back on a cold read)
+	train := !chain && (so.Flat || so.Vamana) && rapid.IntRange(0, 3).Draw(t, "train") == 0
+	trainTrigger := 0
+	var trainProps []string
+	if train {
+		trainTrigger = rapid.IntRange(3, 6).Draw(t, "trainTrigger")
+		bq := &models.Quantizer{Type: models.QuantizerBinary, Binary: &models.BinaryQuantizerParamaters{TriggerThreshold: trainTrigger,
+			DistanceMetric: rapid.SampledFrom([]string{models.DistanceHamming, models.DistanceJaccard}).Draw(t, "trainBitMetric")}}
+		fix := func(m string) string {
+			if m == models.DistanceEuclidean || m == models.DistanceDot || m == models.DistanceCosine {
+				return m
+			}
+			return models.DistanceEuclidean
+		}
+		if sv, ok := schema[gen.PFlat]; ok {
+			p := *sv.VectorFlat
+			p.DistanceMetric, p.Quantizer = fix(p.DistanceMetric), bq
+			sv.VectorFlat = &p
+			schema[gen.PFlat] = sv
+			trainProps = append(trainProps, gen.PFlat)
+		}
+		if sv, ok := schema[gen.PVamana]; ok {
+			p := *sv.VectorVamana
+			p.DistanceMetric, p.Quantizer = fix(p.DistanceMetric), bq
+			sv.VectorVamana = &p
+			schema[gen.PVamana] = sv
+			trainProps = append(trainProps, gen.PVamana)
+		}
+	}
 	c := Case{H: gen.History{Schema: schema, MaxPointSize: 1 << 20, CacheLimit: -1}}
 	g := gen.NewHistoryGen(t, schema, c.H.MaxPointSize, ho)
 	n := rapid.IntRange(1, ho.MaxSteps).Draw(t, "nsteps")
+	var trainEarly []uuid.UUID
+	if train {
+		n = 3 + rapid.IntRange(0, 3).Draw(t, "trainTail")
+	}
+	trainInsert := func(label string, from, cnt int) gen.Step {
+		st := gen.Step{Kind: "insert", Note: "train"}
+		for k := 0; k < cnt && from+k < len(g.Pool); k++ {
+			doc := gen.GenDoc(t, fmt.Sprintf("%s%d-", label, k), schema, ho)
+			for _, prop := range trainProps {
+				dim, metric := 0, ""
+				if prop == gen.PFlat {
+					dim, metric = int(schema[prop].VectorFlat.VectorSize), schema[prop].VectorFlat.DistanceMetric
+				} else {
+					dim, metric = int(schema[prop].VectorVamana.VectorSize), schema[prop].VectorVamana.DistanceMetric
+				}
+				doc[prop] = gen.GenVector(t, fmt.Sprintf("%s%d-%s", label, k, prop), dim, metric)
+			}
+			st.Points = append(st.Points, model.Point{Id: g.Pool[from+k], Doc: doc})
+		}
+		g.M.Insert(st.Points)
+		return st
+	}
 	var chainIds []uuid.UUID
 	chainLen := 0
 	if chain {
@@ -63,6 +116,17 @@ func genCase(t *rapid.T) Case {
 	for i := 0; i < n; i++ {
 		var st gen.Step
 		switch {
+		case train && i == 0:
+			st = trainInsert("trainA", 0, rapid.IntRange(1, trainTrigger-1).Draw(t, "trainEarly"))
+			for _, p := range st.Points {
+				trainEarly = append(trainEarly, p.Id)
+			}
+		case train && i == 1:
+			st = trainInsert("trainB", len(trainEarly), trainTrigger)
+		case train && i == 2:
+			k := rapid.IntRange(1, len(trainEarly)).Draw(t, "trainDel")
+			st = gen.Step{Kind: "delete", Ids: append([]uuid.UUID{}, trainEarly[:k]...), Note: "train: delete points persisted before the training"}
+			g.M.Delete(st.Ids)
 		case chain && i < chainLen:
 			free := g.Pool[i]
 			doc := gen.GenDoc(t, fmt.Sprintf("chain%d-", i), schema, ho)
